@@ -307,6 +307,15 @@ DoDelta ==
        LET t == Mk([c |-> "Delta", terms |-> << <<NewNames[n], Last, Mk(DeltaLds[d])>> >>])
        IN Last.c # "Delta" /\ Admissible(t) /\ Push(t)
 
+\* a point mass over TWO variables at once: Delta(((n1, (Last, ld)), (n2, (pool[j], ld'))))
+DoDelta2 ==
+  /\ "Delta2" \in Acts /\ CanStep /\ Len(pool) >= 2 /\ Len(NewNames) >= 2
+  /\ \E j \in 1..(Len(pool) - 1), d \in 1..Len(DeltaLds), flip \in BOOLEAN :
+       LET n1 == IF flip THEN NewNames[2] ELSE NewNames[1]
+           n2 == IF flip THEN NewNames[1] ELSE NewNames[2]
+           t == Mk([c |-> "Delta", terms |-> << <<n1, Last, Mk(DeltaLds[d])>>, <<n2, pool[j], Mk(DeltaLds[1])>> >>])
+       IN Last.c # "Delta" /\ pool[j].c # "Delta" /\ Admissible(t) /\ Push(t)
+
 \* Integrate(log_measure, integrand, reduced_vars): measure and integrand from the pool
 DoInteg ==
   /\ "Integ" \in Acts /\ CanStep /\ Len(pool) >= 2
@@ -315,7 +324,7 @@ DoInteg ==
                     integrand |-> IF flip THEN pool[j] ELSE Last, vars |-> SubSeqByMask(RedVars, mask)])
        IN Admissible(t) /\ Push(t)
 
-Next == DoInteg \/ DoDelta \/ DoCon \/ AddLeaf \/ DoUn \/ DoBin \/ DoGetitem \/ DoRed \/ DoSub \/ DoLam \/ DoStack
+Next == DoInteg \/ DoDelta \/ DoDelta2 \/ DoCon \/ AddLeaf \/ DoUn \/ DoBin \/ DoGetitem \/ DoRed \/ DoSub \/ DoLam \/ DoStack
         \/ DoCat \/ DoAlign \/ DoIndep
 
 Init == pool = <<>> /\ nops = 0
